@@ -130,3 +130,26 @@ def C18(ck):
         ck.run_and_judge(["claims-read", "-seed", ck.seed, "-tier", ck.tier, "-n", nr, "-in", dom, "-out", ck.path("cr")], "Trace_Claims")
     finally:
         _rm(dom, hist)
+
+
+def C04(ck):
+    ck.rule = ("CBOR claims maps assembled by the harness's independent encoder from the per-key item classes TLC exports from "
+               "spec/Gen_Wire.tla (absent, null, undefined, every boundary class of the right type, every wrong major type, "
+               "out-of-width integers, floats of three widths, arrays of small integers, tagged, indefinite-length, nested forms; "
+               "component maps with deviating / unknown / text keys): all singles on three base tokens per profile, all pairs, the "
+               "dispatch selector, unknown extra keys (alone, pairs, up to 300), mixed-profile key sets, key-order permutations, "
+               "indefinite root, random combinations; each token goes through DecodeClaimsFromCBOR and "
+               "DecodeAndValidateClaimsFromCBOR; the bytes are projected by the independent reader and the verdict / decoded values "
+               "are judged against PsaWire!DispatchCBOR / DecodeTok / Valid; encodings the property leaves open evaluate to 'open'; "
+               "non-trivial = rejected token or one with extra entries")
+    ck.assumptions = TRUST + ["the independent CBOR encoder / reader harness/cborx"]
+    ck.add_model(vlib.mc("MC_Claims", "MC_Claims_decoded.cfg"))
+    dom = vlib.gen_export("Gen_Claims", "Gen_Claims.cfg", "domains")
+    wire = vlib.gen_export("Gen_Wire", "Gen_Wire.cfg", "wire")
+    try:
+        stats, res = ck.run_and_judge(["wire-decode", "-seed", ck.seed, "-tier", ck.tier, "-chunk", 4000, "-in", wire, "-in2", dom,
+                                       "-out", ck.path("wd")], "Trace_Wire", par=12, xmx="3g")
+        acc, rej = _need_both_polarities(res, "C04")
+        ck.extra.update(accepted=acc, rejected=rej, by_source=stats.get("by_source"))
+    finally:
+        _rm(dom, wire)
